@@ -25,6 +25,7 @@ class Spec:
         self.over = []         # methods each class defines itself
         self.hbase = []        # its handler base (single lineage)
         self.objmap = {}
+        self.objev = {}        # an instance's own __events__ hides its class's
         self.reactions = {}
         self.ops = []
         self.out = []
@@ -53,6 +54,8 @@ class Spec:
             elif t[0] == 'obj':
                 d = dict(x.split('=', 1) for x in t[2:])
                 self.objmap[int(t[1])] = int(d['class'])
+                if 'ev' in d:
+                    self.objev[int(t[1])] = dict(p.split(':') for p in split_list(d['ev']))
             elif t[0] == 'react':
                 self.reactions[(int(t[1]), t[2], int(t[3]))] = parse_ops(t[5:])
             elif t[0] == 'op':
@@ -83,7 +86,7 @@ class Spec:
                 self.out.append(f'gone {o}')
                 return
             if k == 'add':
-                m = self.classes[self.objmap[o]]
+                m = self.objev.get(o, self.classes[self.objmap[o]])
                 if m is None:
                     raise Raised('AssertionError')
                 self.registered[o] = m
